@@ -589,13 +589,15 @@ fn c06(args: &Args, agg: &mut Aggregate) {
         let fi = rng.below(fixture_files.len() as u64) as usize;
         let (b, key) = &fixture_files[fi];
         let mut f = b.clone();
-        let kind = match rng.below(6) {
+        let kind = match rng.below(7) {
             0 => { let k = rng.below(f.len() as u64 + 1) as usize; f.truncate(k); "prefix" }
             1 => { let k = rng.below(200.min(f.len()) as u64 + 1) as usize; f.truncate(k); "short-prefix" }
             2 => { for _ in 0..rng.range(1, 4) { let i = rng.below(f.len() as u64) as usize; f[i] = rng.next() as u8; } "bytes" }
             3 => { // overwrite a 4-byte little-endian word in the first 300 bytes with an extreme length
                 let i = rng.below(300.min(f.len().saturating_sub(4)) as u64) as usize; let v: u32 = *rng.pick(&[0u32, 1, 0xffff_ffff, 0x7fff_ffff, 0x8000_0000, 65536, 31, 33]); if f.len() >= i + 4 { f[i..i + 4].copy_from_slice(&v.to_le_bytes()); } "length-word" }
             4 => { let n = rng.below(64) as usize; f = rng.bytes(n); "random-bytes" }
+            6 => { // the pre-release KeePass 2 signature (an unsupported version), on any corpus file
+                if f.len() >= 8 { f[4..8].copy_from_slice(&[0x66, 0xfb, 0x4b, 0xb5]); } "kdb2-signature" }
             _ => { let k = rng.below(f.len() as u64 + 1) as usize; f.truncate(k); let n = rng.below(40) as usize; f.extend_from_slice(&rng.bytes(n)); "prefix-plus-noise" }
         };
         o.input = format!("(damage {} {} -> {} bytes)", FIXTURES[fi].file, kind, f.len());
